@@ -230,8 +230,170 @@ def run(chk: core.Check):
             chk.disagree("exit code (real CLI vs Model_C05.exit_code on the emitted events)", cfg, code, m)
     chk.stages["cli"] = cli_stats
 
+    # ---- (c') an internal error in the MAIN thread (FatalError event) or a raising report handler: exit code must be non-zero
+    from schemathesis.core import _verif
+
+    abort_exprs, abort_obs = [], []
+    for k in range((4 if quick else 30) * (3 if chk.broken else 1)):
+        where = rng.choice(["c_get", "c_post", "producer_init", "handler"])
+        nth = rng.randint(1, 3)
+        n_ops = rng.randint(1, 2)
+
+        class MainFault:
+            def __init__(self):
+                self.n = 0
+                self.fired = False
+
+            def point(self, name, ctx):
+                if name == where:
+                    self.n += 1
+                    if self.n == nth:
+                        self.fired = True
+                        raise RuntimeError("injected in the main thread")
+
+        from unittest import mock
+
+        from schemathesis.engine.phases.unit import TaskProducer
+
+        patches = []
+        if where == "producer_init":
+            patches.append(mock.patch.object(TaskProducer, "__init__", side_effect=RuntimeError("injected in TaskProducer()")))
+        if where == "handler":
+            from schemathesis.cli.commands.run.handlers.output import OutputHandler
+
+            orig = OutputHandler.handle_event
+
+            def boom(self, ctx, event, orig=orig):
+                if type(event).__name__ == "ScenarioFinished":
+                    raise RuntimeError("injected in a report handler")
+                return orig(self, ctx, event)
+
+            patches.append(mock.patch.object(OutputHandler, "handle_event", boom))
+        mf = MainFault()
+        _verif.set_controller(mf)
+        try:
+            for pt in patches:
+                pt.start()
+            r = run_cli(U.schema_with_ops(n_ops), U.make_responder(["ok"] * n_ops), ["--phases=fuzzing", "--max-examples=2", f"--workers={rng.randint(1, 2)}"])
+        finally:
+            for pt in patches:
+                pt.stop()
+            _verif.set_controller(None)
+        cfg = {"main_thread_fault": where, "nth": nth, "ops": n_ops}
+        if where in ("c_get", "c_post") and not mf.fired:
+            continue  # the run ended before the n-th visit of that point: nothing was injected
+        chk.seen({"cli_abort": cfg}, True)
+        fatal = any(type(e).__name__ == "FatalError" for e in r["events"])
+        raised = r["exception"] is not None
+        if r["exit_code"] == 0:
+            chk.fail("an internal error in the main thread / a raising report handler, yet the exit code is 0", cfg, detail=r["output"][-600:])
+        items = [f"(CEngine {x})" for x in []]
+        abort_exprs.append("cli_exit_code " + clist((["CFatalError"] if fatal else []) + (["CHandlerRaises"] if (raised or where == "handler") else []), "cli_ev"))
+        abort_obs.append((cfg, 1 if r["exit_code"] != 0 else 0, fatal, raised))
+    for (cfg, code, fatal, raised), m in zip(abort_obs, core.coq_eval(IMPORTS, abort_exprs) if abort_exprs else []):
+        if (fatal or raised or cfg["main_thread_fault"] == "handler") and code != m:
+            chk.disagree("exit code after a main-thread fault (real CLI vs Model_C05.cli_exit_code)", cfg, code, m)
+    chk.stages["cli_abort"] = {"runs": len(abort_obs)}
+
+    # ---- (d) free runs: which checks fail / raise, unique inputs, stateful phase
+    chk.stages["free_runs"] = free_runs(chk, (10 if quick else 100) * (5 if chk.broken else 1))
+
     for f in chk.findings:
         chk.known(f, witness_fails(f["witness"]))
+
+
+def free_runs(chk, n) -> dict:
+    """Oracle: whenever the scripted API misbehaves for an operation (500 -> built-in check; a custom check that fails with
+    AssertionError / a Failure / raises another exception), the run must report that operation's scenario as FAILURE or ERROR,
+    the phase as FAILURE or ERROR, and record a failing check with its case (for check failures)."""
+    from schemathesis.checks import not_a_server_error
+    from schemathesis.core.failures import Failure
+    from harness.engine_util import demo_schema, default_responder
+
+    rng = chk.rng
+    stats = {"runs": 0, "lost": 0}
+    for k in range(n):
+        kind = rng.choice(["server_error", "custom_assert", "custom_failure", "custom_raises", "two_checks", "stateful_500"])
+        workers = rng.randint(1, 3)
+        cof = rng.random() < 0.4
+        unique = rng.random() < 0.4
+        phases = rng.choice([["fuzzing"], ["coverage"], ["coverage", "fuzzing"], ["examples", "coverage", "fuzzing", "stateful"]])
+        n_ops = rng.randint(1, 3)
+        bad_op = rng.randrange(n_ops)
+        kinds = ["ok"] * n_ops
+
+        class MyFailure(Failure):
+            pass
+
+        def chk_assert(ctx, response, case, bad_op=bad_op):
+            if U.op_index(case.operation.label) == bad_op:
+                raise AssertionError("custom assertion")
+
+        def chk_failure(ctx, response, case, bad_op=bad_op):
+            if U.op_index(case.operation.label) == bad_op:
+                raise MyFailure(operation=case.operation.label, title="custom", message="m")
+
+        def chk_raises(ctx, response, case, bad_op=bad_op):
+            if U.op_index(case.operation.label) == bad_op:
+                raise RuntimeError("check crashed")
+
+        checks = [not_a_server_error]
+        expect_check_failure = True
+        raw, responder = U.schema_with_ops(n_ops), None
+        if kind == "server_error":
+            kinds[bad_op] = "fail"
+        elif kind == "custom_assert":
+            checks = [not_a_server_error, chk_assert]
+        elif kind == "custom_failure":
+            checks = [chk_failure, not_a_server_error]
+        elif kind == "custom_raises":
+            checks = [not_a_server_error, chk_raises]
+            expect_check_failure = False
+        elif kind == "two_checks":
+            kinds[bad_op] = "fail"
+            checks = [chk_assert, not_a_server_error, chk_failure]
+        elif kind == "stateful_500":
+            raw = demo_schema()
+            phases = ["stateful"]
+
+            def responder(item):
+                if item["method"] == "GET":
+                    return 500, [("Content-Type", "application/json")], b"{}"
+                return default_responder(item)
+
+        if responder is None:
+            responder = U.make_responder(kinds)
+        cfg = {"kind": kind, "workers": workers, "cof": cof, "unique_inputs": unique, "phases": phases, "ops": n_ops, "bad_op": bad_op, "seed": k}
+        evs, reqs = run_engine(raw, responder, phases=phases, workers=workers, max_examples=3, seed=k + 1, continue_on_failure=cof,
+                               unique_inputs=unique, checks=checks)
+        stats["runs"] += 1
+        chk.seen({"free": cfg}, True)
+        chk.count("free:" + kind)
+        if kind == "stateful_500":
+            hit = any(r["method"] == "GET" for r in reqs)
+            if not hit:
+                continue
+            bad_fin = [e for e in evs if event_kind(e) == "ScenarioFinished" and e.status.name in ("FAILURE", "ERROR")]
+        else:
+            hit = any(U.op_index(r["target"]) == bad_op for r in reqs)
+            if not hit:
+                continue
+            bad_fin = [e for e in evs if event_kind(e) == "ScenarioFinished" and U.op_index(e.label) == bad_op and e.status.name in ("FAILURE", "ERROR")]
+        bad_phase = [e for e in evs if event_kind(e) == "PhaseFinished" and e.status.name in ("FAILURE", "ERROR")]
+        if not bad_fin or not bad_phase:
+            stats["lost"] += 1
+            chk.fail(f"a request was answered/checked badly ({kind}) but no scenario/phase is reported as failed or errored", cfg)
+            continue
+        if expect_check_failure:
+            recorded = False
+            for e in bad_fin:
+                rec = e.recorder
+                if rec is not None and any(c.status.name == "FAILURE" and c.failure_info is not None for cs in rec.checks.values() for c in cs):
+                    recorded = True
+            if not recorded:
+                stats["lost"] += 1
+                chk.fail(f"the failing check ({kind}) is not recorded with its case in any failed scenario", cfg)
+    return stats
 
 
 def witness_fails(w) -> bool:
